@@ -96,6 +96,8 @@ impl<T> SpscRing<T> {
         unsafe {
             (*self.buffer[idx].get()).write(value);
         }
+        #[cfg(rustrtc_verif)]
+        crate::media::verif_sched::point("spsc.push.before_publish");
         self.tail.store(tail.wrapping_add(1), Ordering::Release);
         Ok(())
     }
@@ -111,6 +113,8 @@ impl<T> SpscRing<T> {
         let idx = head % self.capacity;
         // Safety: consumer is the only reader for this slot, and slot is initialized because queue isn't empty.
         let value = unsafe { (*self.buffer[idx].get()).assume_init_read() };
+        #[cfg(rustrtc_verif)]
+        crate::media::verif_sched::point("spsc.pop.before_release");
         self.head.store(head.wrapping_add(1), Ordering::Release);
         Some(value)
     }
